@@ -151,14 +151,20 @@ func (b *Broker) ConnectInOut(
 	has, so sides of different bidirectional connections can't be paired
 	with each other. */
 	key := b.bidirKey + strconv.FormatUint(b.nBidir.Add(1), 10)
+	/* The two sides belong together.  If either is rejected or finishes,
+	the other mustn't linger or be connected later on its own. */
+	ctx, cancel := context.WithCancel(ctx)
+	defer cancel()
 	var wg sync.WaitGroup
 	wg.Add(2)
 	go func() {
 		defer wg.Done()
+		defer cancel()
 		b.ConnectIn(ctx, sl, addr, w, key)
 	}()
 	go func() {
 		defer wg.Done()
+		defer cancel()
 		b.ConnectOut(ctx, sl, addr, r, key)
 	}()
 	wg.Wait()
@@ -188,6 +194,13 @@ func (b *Broker) connect(
 
 	/* Make sure we're not no longer accepting connections. */
 	if b.noMore {
+		return
+	}
+
+	/* No point in connecting if whoever wanted this connection has
+	already given up on it. */
+	if nil != ctx.Err() {
+		sl.Error(LMCanceled, LKDirection, dir, LKError, context.Cause(ctx))
 		return
 	}
 	b.wg.Add(1)
